@@ -32,4 +32,208 @@ theorem forceBackup_base_readonly_partial (cfg : Cfg) (r : Path) (w : World) :
     Extends (fun e => e.sig.side = .backup ∨ e.mutating = false) w (tryBackup cfg r w).1 :=
   tryBackup_logs cfg r w
 
+/-!
+### C17 — ForceBackup re-baselines a path (end-to-end part, link-free fragment)
+
+Main theorem (`forceBackup_rebaselines_linkfree_partial`): for the OS model behind two `PrefixFS`
+layers, every well-formed link-free disk, every covered history `ops₁`, a *successful*
+`ForceBackup(p)` for a path `p` that was not a directory when the transaction began and is not one
+at the moment of the call, whose parent directory predates the transaction, and every covered
+history `ops₂` after it: the later Rollback leaves `p` *exactly* as it was at the moment of the
+ForceBackup call (content, type, mode, owner, modification time — or absent, if it was absent
+then), and every other entry of the base below its root as it was when the transaction began
+(directory timestamps erased, as in C01).
+
+The generic proof is in Lemmas/Force.lean: `tryRemoveBackup` drops the tracking entry and the old
+copy, after which the transaction invariant of C01 holds for the original view *re-based at `p`*
+(`Inv.del_rebase`); `tryBackup` and all later covered operations keep that invariant
+(`sat_tryBackup`, `history_keeps`), and `sat_rollback` restores from it.
+
+`_partial`: besides the limits of C01 (no symlinks, absolute names, …) the theorem assumes, for a
+path `p` that did *not exist* when the transaction began, that the backup filesystem holds no
+*directory* at `p` at the moment of the call (`hbak`; the invariant does not describe what the backup
+holds at a path tracked as "did not exist", and a directory there sends `tryRemoveBackup` into its
+recursive walk, which is not covered; for a path that did exist nothing is assumed about the backup),
+and it covers one ForceBackup per
+history (a second one is covered when its path satisfies the same hypotheses w.r.t. the re-based
+view: `sat_forceBackup` is stated for any reference view).
+-/
+
+
+theorem osView_isDirAt_of {bk kk : Key} {s : Side} {m : MFS} {k : Key}
+    (h : (osView bk kk s m).isDirAt k) : ∃ mt, m.get (osRoot bk kk s ++ k) = some (.dir mt) := by
+  obtain ⟨mt, hmt⟩ := h
+  unfold osView at hmt
+  cases hget : m.get (osRoot bk kk s ++ k) with
+  | none => rw [hget] at hmt; cases hmt
+  | some n =>
+    rw [hget] at hmt
+    cases n with
+    | dir mt' => exact ⟨mt', rfl⟩
+    | file c mt' => simp [eraseMt] at hmt
+    | link t mt' => simp [eraseMt] at hmt
+
+theorem osView_isDirAt_mk {bk kk : Key} {s : Side} {m : MFS} {k : Key} {mt : Meta}
+    (h : m.get (osRoot bk kk s ++ k) = some (.dir mt)) : (osView bk kk s m).isDirAt k :=
+  ⟨{ mt with mtime := .fresh }, by unfold osView; rw [h]; rfl⟩
+
+/-- the view erases directory timestamps only: where one side is not a directory, equal views mean
+equal nodes -/
+theorem eraseMt_exact {a b : Option Node} (h : a.map eraseMt = b.map eraseMt)
+    (hb : ∀ mt, b ≠ some (.dir mt)) : a = b := by
+  cases b with
+  | none =>
+    cases a with
+    | none => rfl
+    | some n => simp at h
+  | some n' =>
+    cases a with
+    | none => simp at h
+    | some n =>
+      cases n' with
+      | dir mt => exact absurd rfl (hb mt)
+      | file c mt => cases n <;> simp_all [eraseMt]
+      | link t mt => cases n <;> simp_all [eraseMt]
+
+/-- T17.main  ForceBackup re-baselines a non-directory path — link-free fragment (see the header
+for what is excluded).  `k` is `p` as a list of components below the base root. -/
+theorem forceBackup_rebaselines_linkfree_partial (bk kk : Key) (hbk : PKey bk) (hkk : PKey kk)
+    (hne1 : bk ≠ []) (hne2 : kk ≠ []) (hd1 : ¬ bk <+: kk) (hd2 : ¬ kk <+: bk)
+    (w : World) (hg : OSGood bk kk w.fs) (hinfos : w.infos = []) (hnf : w.faults = [])
+    (ops₁ ops₂ : List Op) (name : Path) (k : Key) (hk : PKey k) (hname : clean name = kp k)
+    (hcov1 : CoveredHist (osCfg bk kk) (osSim bk kk hbk hkk hne1 hne2 hd1 hd2) w ops₁)
+    -- `p` was not a directory when the transaction began …
+    (horig : ∀ mt, w.fs.get (bk ++ k) ≠ some (.dir mt))
+    -- … and is not one at the moment of the call;
+    (hnow : ∀ mt, (runOps (osCfg bk kk) w ops₁).fs.get (bk ++ k) ≠ some (.dir mt))
+    -- its parent directories predate the transaction;
+    (hpar : k ≠ [] ∧ ∃ mt, w.fs.get (bk ++ k.dropLast) = some (.dir mt))
+    -- if `p` did not exist when the transaction began: the backup filesystem holds no directory at `p`;
+    (hbak : w.fs.get (bk ++ k) = none →
+      ∀ mt, (runOps (osCfg bk kk) w ops₁).fs.get (kk ++ k) ≠ some (.dir mt))
+    -- the ForceBackup succeeds
+    (hok : (Op.exec (osCfg bk kk) (.force name) (runOps (osCfg bk kk) w ops₁)).2 = .ok .unit)
+    (hcov2 : CoveredHist (osCfg bk kk) (osSim bk kk hbk hkk hne1 hne2 hd1 hd2)
+      (Op.step (osCfg bk kk) (runOps (osCfg bk kk) w ops₁) (.force name)) ops₂) :
+    -- `p` is exactly what it was at the moment of the ForceBackup call …
+    (runTx (osCfg bk kk) w (ops₁ ++ .force name :: ops₂)).fs.get (bk ++ k) =
+      (runOps (osCfg bk kk) w ops₁).fs.get (bk ++ k) ∧
+    -- … and every other path is rolled back as usual
+    ∀ j, j ≠ [] → j ≠ k →
+      ((runTx (osCfg bk kk) w (ops₁ ++ .force name :: ops₂)).fs.get (bk ++ j)).map eraseMt =
+        (w.fs.get (bk ++ j)).map eraseMt := by
+  have key := force_in_history_rollback (S := osSim bk kk hbk hkk hne1 hne2 hd1 hd2) hg hinfos hnf
+    ops₁ ops₂ (name := name) hk hname hcov1
+    (fun h => by obtain ⟨mt, hmt⟩ := osView_isDirAt_of h; exact horig mt hmt)
+    (fun h => by obtain ⟨mt, hmt⟩ := osView_isDirAt_of h; exact hnow mt hmt)
+    ⟨hpar.1, (by obtain ⟨mt, hmt⟩ := hpar.2; exact osView_isDirAt_mk (s := .base) hmt)⟩
+    (fun h0 h => by
+      obtain ⟨mt, hmt⟩ := osView_isDirAt_of h
+      have h0' : (w.fs.get (bk ++ k)).map eraseMt = none := h0
+      exact hbak (by simpa using h0') mt hmt)
+    hok hcov2
+  constructor
+  · have := key k hpar.1
+    rw [if_pos rfl] at this
+    exact eraseMt_exact this hnow
+  · intro j hj hjk
+    have := key j hj
+    rw [if_neg hjk] at this
+    exact this
+
+/-- T17.faults  the same under any fault plan: whatever failed among the operations before and
+after the (successful) ForceBackup, once the filesystems are healthy again Rollback leaves `p` as it
+was at the moment of the call and every other path as it was when the transaction began; and had the
+ForceBackup itself failed, `p` would be rolled back to one of the two (no third state). -/
+theorem forceBackup_rebaselines_after_faults_linkfree_partial (bk kk : Key) (hbk : PKey bk) (hkk : PKey kk)
+    (hne1 : bk ≠ []) (hne2 : kk ≠ []) (hd1 : ¬ bk <+: kk) (hd2 : ¬ kk <+: bk)
+    (w : World) (hg : OSGood bk kk w.fs) (hinfos : w.infos = [])
+    (ops₁ ops₂ : List Op) (name : Path) (k : Key) (hk : PKey k) (hname : clean name = kp k)
+    (hcov1 : CoveredHist (osCfg bk kk) (osSim bk kk hbk hkk hne1 hne2 hd1 hd2) w ops₁)
+    (horig : ∀ mt, w.fs.get (bk ++ k) ≠ some (.dir mt))
+    (hnow : ∀ mt, (runOps (osCfg bk kk) w ops₁).fs.get (bk ++ k) ≠ some (.dir mt))
+    (hpar : k ≠ [] ∧ ∃ mt, w.fs.get (bk ++ k.dropLast) = some (.dir mt))
+    (hbak : w.fs.get (bk ++ k) = none →
+      ∀ mt, (runOps (osCfg bk kk) w ops₁).fs.get (kk ++ k) ≠ some (.dir mt))
+    (hcov2 : CoveredHist (osCfg bk kk) (osSim bk kk hbk hkk hne1 hne2 hd1 hd2)
+      (Op.step (osCfg bk kk) (runOps (osCfg bk kk) w ops₁) (.force name)) ops₂) :
+    let final := (rollback (osCfg bk kk)
+      { runOps (osCfg bk kk) w (ops₁ ++ .force name :: ops₂) with faults := [] }).1
+    (∀ j, j ≠ [] → j ≠ k → (final.fs.get (bk ++ j)).map eraseMt = (w.fs.get (bk ++ j)).map eraseMt) ∧
+    (final.fs.get (bk ++ k) = w.fs.get (bk ++ k) ∨
+      final.fs.get (bk ++ k) = (runOps (osCfg bk kk) w ops₁).fs.get (bk ++ k)) ∧
+    ((Op.exec (osCfg bk kk) (.force name) (runOps (osCfg bk kk) w ops₁)).2 = .ok .unit →
+      final.fs.get (bk ++ k) = (runOps (osCfg bk kk) w ops₁).fs.get (bk ++ k)) := by
+  intro final
+  obtain ⟨hstep, hiff⟩ := force_step (osCfg bk kk) name (runOps (osCfg bk kk) w ops₁)
+  have hrun : runOps (osCfg bk kk) w (ops₁ ++ .force name :: ops₂) =
+      runOps (osCfg bk kk) (forceBackup (osCfg bk kk) name (runOps (osCfg bk kk) w ops₁)).1 ops₂ := by
+    rw [runOps_append, ← hstep]; rfl
+  rw [hstep] at hcov2
+  obtain ⟨h1, h2, h3⟩ := force_then_rollback_after_faults (S := osSim bk kk hbk hkk hne1 hne2 hd1 hd2) hg hinfos
+    ops₁ ops₂ (name := name) hk hname hcov1
+    (fun h => by obtain ⟨mt, hmt⟩ := osView_isDirAt_of h; exact horig mt hmt)
+    (fun h => by obtain ⟨mt, hmt⟩ := osView_isDirAt_of h; exact hnow mt hmt)
+    ⟨hpar.1, (by obtain ⟨mt, hmt⟩ := hpar.2; exact osView_isDirAt_mk (s := .base) hmt)⟩
+    (fun h0 h => by
+      obtain ⟨mt, hmt⟩ := osView_isDirAt_of h
+      have h0' : (w.fs.get (bk ++ k)).map eraseMt = none := h0
+      exact hbak (by simpa using h0') mt hmt)
+    hcov2
+  rw [← hrun] at h1 h2 h3
+  refine ⟨h1, ?_, ?_⟩
+  · rcases h2 with h | h
+    · exact Or.inl (eraseMt_exact h horig)
+    · exact Or.inr (eraseMt_exact h hnow)
+  · intro hok
+    exact eraseMt_exact (h3 (hiff.mp hok)) hnow
+
+/-! ### non-vacuity: the hypotheses hold of an ordinary disk and history -/
+
+def isOkUnit : Except Err OpOut → Bool
+  | .ok .unit => true
+  | _ => false
+
+theorem isOkUnit_eq {r : Except Err OpOut} (h : isOkUnit r = true) : r = .ok .unit := by
+  cases r with
+  | error e => cases h
+  | ok o => cases o <;> first | rfl | cases h
+
+def notDir : Option Node → Bool
+  | some (.dir _) => false
+  | _ => true
+
+theorem notDir_spec {x : Option Node} (h : notDir x = true) : ∀ mt, x ≠ some (.dir mt) := by
+  intro mt e; subst e; cases h
+
+/-- the disk `exDisk` (`/b/f` a file, `/b/d` a directory, backup root `/k`); the history overwrites
+`/f`, forces a backup of it, then removes it and makes a directory in its place: every hypothesis of
+`forceBackup_rebaselines_linkfree_partial` holds (the theorem then says Rollback leaves `/f` with the
+overwritten content) -/
+example :
+    let cfg := osCfg [['b']] [['k']]
+    let w : World := { fs := exDisk }
+    let ops₁ : List Op := [.write "/f".toList (O_WRONLY ||| O_TRUNC) 0 "y"]
+    let ops₂ : List Op := [.remove "/f".toList, .mkdir "//f/".toList 0o755, .creat "/f/x".toList "z"]
+    OSGood [['b']] [['k']] w.fs ∧ w.infos = [] ∧ w.faults = [] ∧
+    PKey [['f']] ∧ clean "/f".toList = kp [['f']] ∧
+    CoveredHist cfg osSim_example w ops₁ ∧
+    (∀ mt, w.fs.get ([['b']] ++ [['f']]) ≠ some (.dir mt)) ∧
+    (∀ mt, (runOps cfg w ops₁).fs.get ([['b']] ++ [['f']]) ≠ some (.dir mt)) ∧
+    ([['f']] ≠ [] ∧ ∃ mt, w.fs.get ([['b']] ++ [['f']].dropLast) = some (.dir mt)) ∧
+    (w.fs.get ([['b']] ++ [['f']]) = none →
+      ∀ mt, (runOps cfg w ops₁).fs.get ([['k']] ++ [['f']]) ≠ some (.dir mt)) ∧
+    (Op.exec cfg (.force "/f".toList) (runOps cfg w ops₁)).2 = .ok .unit ∧
+    CoveredHist cfg osSim_example (Op.step cfg (runOps cfg w ops₁) (.force "/f".toList)) ops₂ := by
+  refine ⟨osGood_example, rfl, rfl, (by decide), (by decide), ⟨?_, trivial⟩, ?_, ?_, ⟨(by decide), ⟨_, rfl⟩⟩, ?_, ?_,
+    ⟨?_, ?_, ?_, trivial⟩⟩
+  · show isAbs _ = true; decide
+  · exact notDir_spec (by decide +kernel)
+  · exact notDir_spec (by decide +kernel)
+  · exact fun _ => notDir_spec (by decide +kernel)
+  · exact isOkUnit_eq (by decide +kernel)
+  · show isAbs _ = true ∧ clean _ ≠ rootP; decide
+  · show isAbs _ = true; decide
+  · show isAbs _ = true; decide
+
 end Props.C17
